@@ -97,6 +97,11 @@ def geometry(elemType, X):
     vecs = [[X[i][a] - origin[a] for a in range(3)] for i in idx]
     m = len(vecs)
     varying = [a for a in range(3) if any(v[a] != 0 for v in vecs)]
+    if len(varying) != m and m == 1:
+        # inclined straight segment: the length is the (correctly rounded) square root of a rational
+        import math
+        L2 = sum(v * v for v in vecs[0])
+        return fam, origin, vecs, F(math.sqrt(L2))
     if len(varying) != m:
         raise ValueError("element %s is not in an axis-aligned %d-plane (varying axes %s)" % (elemType, m, varying))
     J = abs(det([[v[a] for a in varying] for v in vecs]))
